@@ -5,6 +5,7 @@ package c02
 import (
 	"fmt"
 
+	"verif/props/c05"
 	"verif/props/proto"
 	"verif/simnet"
 )
@@ -133,6 +134,20 @@ func gen(tier string) []proto.Item {
 					items = append(items, proto.Item{Scn: s, Class: fmt.Sprintf("%s/%s/arrival-order", v, rtag)})
 				}
 			}
+			// replies with no latency at all: on the capture handle when the send call returns (loopback, same host)
+			for t := r.first; t <= dest; t++ {
+				s := base(v, r, dest)
+				s.Hops = map[int]proto.HopSpec{t: {DelayUs: -1}}
+				items = append(items, proto.Item{Scn: s, Class: fmt.Sprintf("%s/%s/no-latency-reply", v, rtag)})
+			}
+			{
+				s := base(v, r, dest)
+				s.Hops = map[int]proto.HopSpec{}
+				for t := r.first; t <= dest; t++ {
+					s.Hops[t] = proto.HopSpec{DelayUs: -1}
+				}
+				items = append(items, proto.Item{Scn: s, Class: fmt.Sprintf("%s/%s/no-latency-replies", v, rtag)})
+			}
 			// replies that arrive late but inside the budget (one poll interval before the deadline)
 			if vi.Parallel {
 				s := base(v, r, dest)
@@ -198,6 +213,7 @@ func gen(tier string) []proto.Item {
 			items = append(items, proto.Item{Scn: s, Class: v + "/base-" + b.name + "/all-default"})
 		}
 	}
+	items = append(items, c05.ForwardReorder(tier, 200, 11)...)
 	return items
 }
 
